@@ -9,9 +9,10 @@ sys.path.insert(0, HERE)
 from props import PROPS
 SEEDED = "/verif/seeded"
 MPATH = os.path.join(SEEDED, "MATRIX.json")
-only = set(sys.argv[1:])
+only = set(a for a in sys.argv[1:] if "/" not in a)
+only_seeds = set(a for a in sys.argv[1:] if "/" in a)  # e.g. C02/m7: re-run single seeds, keep the rest of the matrix
 res = {}
-if os.path.exists(MPATH) and only:
+if os.path.exists(MPATH) and (only or only_seeds):
     res = json.load(open(MPATH))
 lock = threading.Lock()
 
@@ -74,10 +75,12 @@ def worker(wid, q):
 q = queue.Queue()
 for pid in sorted(os.listdir(SEEDED)):
     d = os.path.join(SEEDED, pid)
-    if not os.path.isdir(d) or (only and pid not in only):
+    if not os.path.isdir(d) or (only and pid not in only and not only_seeds):
         continue
     for m in sorted(os.listdir(d)):
         patch = os.path.join(d, m, "patch.diff")
+        if only_seeds and (pid + "/" + m) not in only_seeds:
+            continue
         if os.path.exists(patch):
             q.put((pid, m, patch))
 ths = [threading.Thread(target=worker, args=(i, q)) for i in range(int(os.environ.get("VERIF_MATRIX_WORKERS", "3")))]
